@@ -17,6 +17,7 @@ from .interp import Interp, MergeFail
 from .model import Builtin, ClassModel, FunctionModel, ModuleModel
 
 PROVE_TIMEOUT_MS = 60000
+QUANT_TIMEOUT_MS = 20000
 
 
 class ContractSpec:
@@ -72,6 +73,7 @@ class Verifier:
         self.covers = {}
         self.unsupported = {}
         self.dump_dir = None
+        self.I.prove_hook = self.check_goal
         self.install_dsl()
 
     # --------------------------------------------------------------------- DSL
@@ -103,6 +105,17 @@ class Verifier:
                                                    fn.name, k))
                 return fn
             return Builtin('lemma()', deco)
+
+        @b('loop_invariant')
+        def _loop_invariant(I_, a, k):
+            def deco(I2, a2, k2):
+                from .loops import LoopSpec
+                fn = a2[0]
+                mod, qual = k['target'].split(':')
+                I.loop_specs[(mod, qual, k.get('loop', 0))] = LoopSpec(fn, k['target'], k.get('loop', 0),
+                                                                     k.get('kind', 'foreach'), k.get('modifies', []), k)
+                return fn
+            return Builtin('loop_invariant()', deco)
 
         @b('requires')
         def _requires(I_, a, k):
@@ -185,6 +198,18 @@ class Verifier:
         @b('draws')
         def _draws(I_, a, k):
             return len(a[0].draws)
+
+        @b('ghost_calls')
+        def _ghost_calls(I_, a, k):
+            return len(a[0].calls)
+
+        @b('ghost_result')
+        def _ghost_result(I_, a, k):
+            return a[0].calls[a[1]]['result']
+
+        @b('ghost_arg')
+        def _ghost_arg(I_, a, k):
+            return a[0].calls[a[1]]['args'][a[2]]
 
         @b('is_none_obj')
         def _isnone(I_, a, k):
@@ -280,6 +305,8 @@ class Verifier:
         I = self.I
         ob = self.results.setdefault(self.oid(name), Obligation(self.oid(name)))
         ob.paths += 1
+        if ob.status != 'discharged':
+            return  # already refuted / undecided on another path
         t0 = time.time()
         try:
             goal = I.truth_term(I.call(thunk, [], {}))
@@ -308,13 +335,36 @@ class Verifier:
                 ob.detail = 'solver returned unknown'
                 ob.cex = None
 
+    def check_goal(self, name, goal):
+        """obligation with an already evaluated goal (loop invariants, call preconditions)"""
+        ob = self.results.setdefault(self.oid(name), Obligation(self.oid(name)))
+        ob.paths += 1
+        if ob.status != 'discharged':
+            return
+        t0 = time.time()
+        goal = concretize(goal)
+        if goal is True:
+            return
+        r, model = self.prove(goal)
+        ob.time += time.time() - t0
+        if r == 'unsat':
+            return
+        if r == 'sat':
+            if ob.status != 'failed':
+                ob.status = 'failed'
+                ob.cex = self.extract_cex(model, goal)
+                ob.detail = 'counterexample'
+        elif ob.status == 'discharged':
+            ob.status = 'unknown'
+            ob.detail = 'solver returned unknown'
+
     def prove(self, goal):
         I = self.I
         from .ctx import has_quant
         quant = I.nquant > 0 or has_quant(goal)
         if quant:
             s0 = z3.Solver()
-            s0.set('timeout', PROVE_TIMEOUT_MS)
+            s0.set('timeout', QUANT_TIMEOUT_MS)
             s0.set('smt.mbqi', False)
             for f in I.pc:
                 s0.add(f)
@@ -322,7 +372,7 @@ class Verifier:
             if STATS.timed(lambda: s0.check()) == z3.unsat:
                 return 'unsat', None
         s = z3.Solver()
-        s.set('timeout', PROVE_TIMEOUT_MS if not quant else 20000)
+        s.set('timeout', PROVE_TIMEOUT_MS if not quant else 10000)
         for f in I.pc:
             s.add(f)
         s.add(z3.Not(zbool(goal)))
@@ -344,8 +394,8 @@ class Verifier:
         best = s.model()
         if not sizes and not coords:
             return best
-        s.set('timeout', 5000)
-        for B in (1, 2, 3, 4, 6, 8):
+        s.set('timeout', 3000)
+        for B in (1, 2, 3, 5):
             s.push()
             for t in sizes:
                 s.add(t <= B)
